@@ -628,3 +628,36 @@ func (r *Run) RequireFollows(rule, fnRef, first, then, argPrefix, name string, a
 		}
 	}
 }
+
+// RequireReturnAllPaths: for every return of fnRef whose k-th result term matches
+// retPat, every acyclic path to it satisfies one of the Req's patterns.
+func (r *Run) RequireReturnAllPaths(rule, fnRef string, k int, retPat string, min int, q Req) {
+	fn := r.fn(rule, fnRef)
+	if fn == nil {
+		return
+	}
+	ff := r.P.Facts(fn)
+	n := 0
+	for _, b := range fn.Blocks {
+		ret, ok := b.Instrs[len(b.Instrs)-1].(*ssa.Return)
+		if !ok || k >= len(ret.Results) || !glob(retPat, ff.Term(ret.Results[k])) {
+			continue
+		}
+		n++
+		paths, okp := ff.PathFacts(b, 4000)
+		r.Units["paths enumerated"] += len(paths)
+		good := okp && len(paths) > 0
+		detail := fmt.Sprintf("%d paths", len(paths))
+		for _, p := range paths {
+			if _, m := matchAny(q.Pats, p); !m {
+				good = false
+				detail = "a path reaches this return without " + q.Name + ": " + trunc(strings.Join(p, " ; "), 300)
+				break
+			}
+		}
+		r.Check(rule, fmt.Sprintf("%s: return %s only when %s", fnRef, trunc(retPat, 50), q.Name), r.P.Pos(ret.Pos()), good, detail)
+	}
+	if n < min {
+		r.Fail(rule, fmt.Sprintf("%s: returns matching %s", fnRef, retPat), r.P.Pos(fn.Pos()), fmt.Sprintf("anchor-unresolved: expected >= %d, found %d", min, n))
+	}
+}
